@@ -221,10 +221,12 @@ def run_impl(ctx):
         if res.violated:
             weak = {k: v for k, v in tab.items() if v != "SeqCst"}
             ctx.report(vp.Violation(
-                f"TLC refutes {res.violated} for mpmc::Container over RobustUniqueIndexSet with the memory orderings used by "
-                f"the code (cell CAS of acquire {tab['s_acq_s']}, of release {tab['s_rel_s']}): an add that re-uses a slot "
-                f"has no happens-before edge to the previous owner's generation-counter update, reads a stale 'empty' "
-                f"generation count and overwrites the words while readers still see the slot as filled",
+                f"TLC refutes {res.violated} for the registry protocol (mpmc::Container over RobustUniqueIndexSet, "
+                f"RegistryImpl.tla) instantiated with what the running code does: cell CAS of acquire {tab['s_acq_s']} / of "
+                f"release {tab['s_rel_s']}, remove loads the generation counter before releasing the index: {rlf}, add marks "
+                f"a slot it finds full as empty before writing: {ame}; the atomic-level traces of the code conform to that "
+                f"model (program {prog}, capacity {cap}; with Relaxed cell exchanges a re-acquiring add has no happens-before "
+                f"edge to the previous owner and may act on a stale generation count)",
                 replay={"invariant": res.violated, "orderings": tab, "remove_loads_first": rlf, "add_marks_empty": ame,
                         "cap": cap, "W": w, "prog": prog, "counterexample": [h for h, _ in res.cex]},
                 signature=f"c11:registry:{res.violated}:acq={tab['s_acq_s']},rel={tab['s_rel_s']}"))
